@@ -410,11 +410,12 @@ fn find_adt<'tcx>(tcx: TyCtxt<'tcx>, name: &str) -> Option<DefId> {
 }
 
 pub fn monowalk<'tcx>(tcx: TyCtxt<'tcx>) -> J {
-    let dnt = match find_adt(tcx, "DefaultNumericTypes") {
-        Some(d) => d,
-        None => return J::obj(vec![("error", J::s("DefaultNumericTypes not found"))]),
+    // crates without the marker type (the fixture crate): only non-generic functions are rooted
+    let dnt_ty = match find_adt(tcx, "DefaultNumericTypes") {
+        Some(dnt) => Ty::new_adt(tcx, tcx.adt_def(dnt), GenericArgs::empty()),
+        None => tcx.types.unit,
     };
-    let dnt_ty = Ty::new_adt(tcx, tcx.adt_def(dnt), GenericArgs::empty());
+    let has_dnt = find_adt(tcx, "DefaultNumericTypes").is_some();
     let mut ctxs: Vec<(String, Ty<'tcx>)> = vec![];
     for name in ["HashMapContext", "EmptyContext", "EmptyContextWithBuiltinFunctions"] {
         if let Some(d) = find_adt(tcx, name) {
@@ -443,8 +444,8 @@ pub fn monowalk<'tcx>(tcx: TyCtxt<'tcx>) -> J {
             for p in gg.own_params.iter() {
                 if let ty::GenericParamDefKind::Type { .. } = p.kind {
                     match p.name.as_str() {
-                        "NumericTypes" | "Self" => {}
-                        "C" => has_c = true,
+                        "NumericTypes" | "Self" if has_dnt => {}
+                        "C" if has_dnt => has_c = true,
                         other => bad = Some(other.to_string()),
                     }
                 } else if let ty::GenericParamDefKind::Const { .. } = p.kind {
